@@ -217,49 +217,117 @@ def dependent(a, b):
     return False
 
 
-def children_sleep(decisions, steps, prefix_len, sleep0, init_dirs):
+def _norm_decisions(decisions, roots):
+    """Paths made independent of the worker's scratch directory and of random temp-file names: '<R0>/rel', and
+    '.tmpXXXXXX' -> '.tmp@<actor>' (an actor only ever touches its own temp files; operations that walk tmp/ - clear - are
+    outside the scenarios that use the reduction)."""
+    out = []
+    for d in decisions:
+        d2 = dict(d)
+        a = d["chosen"]
+
+        def n(p):
+            if p is None:
+                return None
+            for i, r in enumerate(roots):
+                if p == r or p.startswith(r + "/"):
+                    p = "<R%d>" % i + p[len(r):]
+                    break
+            return _TMP.sub(".tmp@%s" % a, p)
+        d2["paths"] = [n(x) for x in (d.get("paths") or [])]
+        d2["fd_path"] = n(d.get("fd_path"))
+        d2["path"] = n(d.get("path"))
+        out.append(d2)
+    return out
+
+
+def _dir_events(steps_norm):
+    events = []   # (index, +1/-1, path): directories created / removed by the executed steps
+    for j, (d, ret) in enumerate(steps_norm):
+        if ret == 0 and d.get("paths"):
+            if d["sys"] in ("mkdir", "mkdirat"):
+                events.append((j, 1, d["paths"][0]))
+            elif d["sys"] in ("rmdir", "rename", "renameat", "renameat2"):
+                events.append((j, -1, d["paths"][0]))
+    return events
+
+
+def _dir_exists_at(i, events, init_dirs):
+    def f(path):
+        ex = path in init_dirs
+        for (j, sign, p_) in events:
+            if j >= i:
+                break
+            if p_ == path:
+                ex = sign > 0
+        return ex
+    return f
+
+
+def _prepare(decisions, steps, roots, init_dirs_abs):
+    if len(steps) != len(decisions) or any(s["actor"] != d["chosen"] or s["sys"] != d["sys"] for s, d in zip(steps, decisions)):
+        raise TracerError("step log and decision log disagree")
+    nd = _norm_decisions(decisions, roots)
+    init_dirs = set()
+    for p in init_dirs_abs:
+        for i, r in enumerate(roots):
+            if p == r or p.startswith(r + "/"):
+                init_dirs.add("<R%d>" % i + p[len(r):])
+    events = _dir_events([(d, s.get("ret")) for d, s in zip(nd, steps)])
+    return nd, init_dirs, events
+
+
+def canonical_trace(decisions, steps, roots, init_dirs_abs):
+    """Lexicographic normal form of the executed interleaving under the dependence relation: two executions have the same
+    form iff they differ only by swaps of adjacent independent steps. Used to validate the reduction against brute
+    force (every class seen by brute force must be visited by the reduced search)."""
+    nd, init_dirs, events = _prepare(decisions, steps, roots, init_dirs_abs)
+    accs = [accesses(d, _dir_exists_at(i, events, init_dirs)) for i, d in enumerate(nd)]
+    n = len(nd)
+    idx_in_actor = []
+    cnt = {}
+    for d in nd:
+        a = d["chosen"]
+        idx_in_actor.append(cnt.get(a, 0))
+        cnt[a] = cnt.get(a, 0) + 1
+    remaining = list(range(n))
+    out = []
+    while remaining:
+        best = None
+        for pos, j in enumerate(remaining):
+            # j is minimal iff no earlier remaining step is dependent on it
+            if all(nd[k]["chosen"] != nd[j]["chosen"] and not dependent(accs[k], accs[j]) for k in remaining[:pos]):
+                key = (nd[j]["chosen"], idx_in_actor[j])
+                if best is None or key < best[0]:
+                    best = (key, j)
+        out.append(best[0])
+        remaining.remove(best[1])
+    return tuple(out)
+
+
+def children_sleep(decisions, steps, prefix_len, sleep0, init_dirs_abs, roots):
     """Sleep-set partial-order reduction (Godefroid) for UNBOUNDED exploration of separate processes: returns
     [(schedule prefix, sleep set at the node after that prefix)]. Every Mazurkiewicz trace (class of interleavings that
     differ only in the order of adjacent independent steps) is still executed at least once; an interleaving is pruned
     only when it differs from an explored one by swaps of independent steps. steps = the executed step records (for the
-    results of mkdir/rmdir/rename, from which the directories existing at each node are derived); init_dirs = the
-    directories existing before the execution. Sleep sets are lists of [actor, access summary of its pending step]."""
-    if len(steps) != len(decisions) or any(s["actor"] != d["chosen"] or s["sys"] != d["sys"] for s, d in zip(steps, decisions)):
-        raise TracerError("step log and decision log disagree")
-    chosen = [d["chosen"] for d in decisions]
-    events = []   # (index, +1/-1, path): directories created / removed by the executed steps
-    for j, s_ in enumerate(steps):
-        if s_.get("ret") == 0 and s_.get("paths"):
-            if s_["sys"] in ("mkdir", "mkdirat"):
-                events.append((j, 1, s_["paths"][0]))
-            elif s_["sys"] == "rmdir":
-                events.append((j, -1, s_["paths"][0]))
-            elif s_["sys"] in ("rename", "renameat", "renameat2"):
-                events.append((j, -1, s_["paths"][0]))
-
-    def dir_exists_at(i):
-        def f(path):
-            ex = path in init_dirs
-            for (j, sign, p_) in events:
-                if j >= i:
-                    break
-                if p_ == path:
-                    ex = sign > 0
-            return ex
-        return f
+    results of mkdir/rmdir/rename, from which the directories existing at each node are derived); init_dirs_abs = the
+    directories existing before the execution. Sleep sets are lists of [actor, access summary of its pending step] with
+    root-relative paths (a child execution may run in another worker's scratch directory)."""
+    nd, init_dirs, events = _prepare(decisions, steps, roots, init_dirs_abs)
+    chosen = [d["chosen"] for d in nd]
 
     def pending(i, b):
-        for j in range(i, len(decisions)):
-            if decisions[j]["chosen"] == b:
-                return accesses(decisions[j], dir_exists_at(i))
+        for j in range(i, len(nd)):
+            if nd[j]["chosen"] == b:
+                return accesses(nd[j], _dir_exists_at(i, events, init_dirs))
         return None   # never ran again in this execution: unknown = dependent on everything
 
     sleep = {a: acc for a, acc in (sleep0 or [])}
     out = []
-    for i in range(prefix_len, len(decisions)):
-        d = decisions[i]
+    for i in range(prefix_len, len(nd)):
+        d = nd[i]
         c = d["chosen"]
-        cacc = accesses(d, dir_exists_at(i))
+        cacc = accesses(d, _dir_exists_at(i, events, init_dirs))
         done = {}
         if c not in sleep:
             done[c] = cacc
